@@ -449,7 +449,11 @@ impl LockFreeMemoryPool {
         // Try to pop from lock-free stack with CAS retry loop
         for retry in 0..self.config.max_cas_retries {
             // ABA-SAFE: Load packed value (offset + generation)
+            #[cfg(zipora_verif)]
+            crate::memory::verif_sched::point(crate::memory::verif_sched::LF_POP_LOAD);
             let packed = bin.head.load(Ordering::Acquire);
+            #[cfg(zipora_verif)]
+            crate::memory::verif_sched::note(crate::memory::verif_sched::LF_POP_LOAD, packed);
             let (current_offset, current_gen) = Self::unpack_head(packed);
 
             if current_offset == LIST_TAIL {
@@ -460,16 +464,22 @@ impl LockFreeMemoryPool {
             }
 
             // Load next pointer from current head
+            #[cfg(zipora_verif)]
+            crate::memory::verif_sched::point(crate::memory::verif_sched::LF_POP_NEXT);
             let next_offset = unsafe {
                 let current_ptr = self.offset_to_ptr(current_offset)?;
                 *(current_ptr.as_ptr() as *const u32)
             };
+            #[cfg(zipora_verif)]
+            crate::memory::verif_sched::note(crate::memory::verif_sched::LF_POP_NEXT, next_offset as u64);
 
             // ABA-SAFE: Pack next offset with INCREMENTED generation counter
             // This prevents ABA: even if offset A→B→A, generation won't match
             let next_packed = Self::pack_head(next_offset, current_gen.wrapping_add(1));
 
             // Try to update head atomically
+            #[cfg(zipora_verif)]
+            crate::memory::verif_sched::point(crate::memory::verif_sched::LF_POP_CAS);
             match bin.head.compare_exchange_weak(
                 packed,  // Compare full packed value (offset + generation)
                 next_packed,  // New packed value with incremented generation
@@ -477,6 +487,11 @@ impl LockFreeMemoryPool {
                 Ordering::Relaxed,
             ) {
                 Ok(_) => {
+                    #[cfg(zipora_verif)]
+                    {
+                        crate::memory::verif_sched::note(crate::memory::verif_sched::LF_POP_CAS, 1);
+                        crate::memory::verif_sched::point(crate::memory::verif_sched::LF_POP_COUNT);
+                    }
                     // Success! Update count and return pointer
                     // SAFETY FIX (v2.1.1): Use Release ordering to synchronize with head update
                     // This ensures the count decrement is visible to other threads that observe
@@ -491,6 +506,8 @@ impl LockFreeMemoryPool {
                     return self.offset_to_ptr(current_offset);
                 }
                 Err(_) => {
+                    #[cfg(zipora_verif)]
+                    crate::memory::verif_sched::note(crate::memory::verif_sched::LF_POP_CAS, 0);
                     // CAS failed, retry with backoff
                     if let Some(stats) = &self.stats {
                         stats.cas_failures.fetch_add(1, Ordering::Relaxed);
@@ -514,11 +531,17 @@ impl LockFreeMemoryPool {
         // Try to push to lock-free stack with CAS retry loop
         for retry in 0..self.config.max_cas_retries {
             // ABA-SAFE: Load packed value (offset + generation)
+            #[cfg(zipora_verif)]
+            crate::memory::verif_sched::point(crate::memory::verif_sched::LF_PUSH_LOAD);
             let packed = bin.head.load(Ordering::Acquire);
+            #[cfg(zipora_verif)]
+            crate::memory::verif_sched::note(crate::memory::verif_sched::LF_PUSH_LOAD, packed);
             let (current_offset, current_gen) = Self::unpack_head(packed);
 
             // Store current OFFSET (not packed value) as next pointer in the block
             // The next pointer only needs the offset, not the generation counter
+            #[cfg(zipora_verif)]
+            crate::memory::verif_sched::point(crate::memory::verif_sched::LF_PUSH_NEXT);
             unsafe {
                 *(ptr.as_ptr() as *mut u32) = current_offset;
             }
@@ -527,6 +550,8 @@ impl LockFreeMemoryPool {
             let new_packed = Self::pack_head(offset, current_gen.wrapping_add(1));
 
             // Try to update head atomically
+            #[cfg(zipora_verif)]
+            crate::memory::verif_sched::point(crate::memory::verif_sched::LF_PUSH_CAS);
             match bin.head.compare_exchange_weak(
                 packed,  // Compare full packed value (offset + generation)
                 new_packed,  // New packed value with incremented generation
@@ -534,6 +559,11 @@ impl LockFreeMemoryPool {
                 Ordering::Relaxed,
             ) {
                 Ok(_) => {
+                    #[cfg(zipora_verif)]
+                    {
+                        crate::memory::verif_sched::note(crate::memory::verif_sched::LF_PUSH_CAS, 1);
+                        crate::memory::verif_sched::point(crate::memory::verif_sched::LF_PUSH_COUNT);
+                    }
                     // Success! Update count
                     bin.count.fetch_add(1, Ordering::Relaxed);
 
@@ -545,6 +575,8 @@ impl LockFreeMemoryPool {
                     return Ok(());
                 }
                 Err(_) => {
+                    #[cfg(zipora_verif)]
+                    crate::memory::verif_sched::note(crate::memory::verif_sched::LF_PUSH_CAS, 0);
                     // CAS failed, retry with backoff
                     if let Some(stats) = &self.stats {
                         stats.cas_failures.fetch_add(1, Ordering::Relaxed);
@@ -585,20 +617,34 @@ impl LockFreeMemoryPool {
         // External cache allocations would cause pointer validation failures in deallocate
         // The offset only advances when the block fits: a failed request must neither consume
         // space nor wrap the 32-bit offset around into memory that is already in use.
+        #[cfg(zipora_verif)]
+        crate::memory::verif_sched::point(crate::memory::verif_sched::LF_BUMP);
         let mut current = self.next_offset.load(Ordering::Relaxed);
+        #[cfg(zipora_verif)]
+        crate::memory::verif_sched::note(crate::memory::verif_sched::LF_BUMP, current as u64);
         let offset = loop {
             let end = match (current as usize).checked_add(aligned_size) {
                 Some(end) if end <= self.config.memory_size && end <= u32::MAX as usize => end,
                 _ => return Err(ZiporaError::out_of_memory(aligned_size)),
             };
+            #[cfg(zipora_verif)]
+            crate::memory::verif_sched::point(crate::memory::verif_sched::LF_BUMP_CAS);
             match self.next_offset.compare_exchange_weak(
                 current,
                 end as u32,
                 Ordering::Relaxed,
                 Ordering::Relaxed,
             ) {
-                Ok(_) => break current,
-                Err(actual) => current = actual,
+                Ok(_) => {
+                    #[cfg(zipora_verif)]
+                    crate::memory::verif_sched::note(crate::memory::verif_sched::LF_BUMP_CAS, 1);
+                    break current
+                }
+                Err(actual) => {
+                    #[cfg(zipora_verif)]
+                    crate::memory::verif_sched::note(crate::memory::verif_sched::LF_BUMP_CAS, 0);
+                    current = actual
+                }
             }
         };
 
@@ -628,6 +674,29 @@ impl LockFreeMemoryPool {
         }
 
         Ok(ptr)
+    }
+
+    /// Verification inspector: `(packed head, count)` of the fast bin serving `size`.
+    #[cfg(zipora_verif)]
+    pub fn verif_bin_state(&self, size: usize) -> Option<(u64, u32)> {
+        let idx = self.size_to_bin_index(self.align_size(size)).ok()?;
+        let bin = &self.fast_bins[idx];
+        Some((bin.head.load(Ordering::SeqCst), bin.count.load(Ordering::SeqCst)))
+    }
+
+    /// Verification inspector: the free-list link word stored at `offset`.
+    #[cfg(zipora_verif)]
+    pub fn verif_read_link(&self, offset: u32) -> Option<u32> {
+        if offset == LIST_TAIL || offset as usize + 4 > self.config.memory_size {
+            return None;
+        }
+        Some(unsafe { *(self.memory.as_ptr().add(offset as usize) as *const u32) })
+    }
+
+    /// Verification inspector: `(base address, bump offset)`.
+    #[cfg(zipora_verif)]
+    pub fn verif_layout(&self) -> (usize, u32) {
+        (self.memory.as_ptr() as usize, self.next_offset.load(Ordering::SeqCst))
     }
 
     /// Convert size to fast bin index
